@@ -24,9 +24,16 @@ MB == [bias |-> 2, cw |-> 1, tw |-> 3,
        tng |-> << [ng |-> <<2, 2>>, w |-> <<1, -9, 2, 3, -1>>] >>,
        dict |-> <<>>, tags |-> <<>>]
 MC == [MB EXCEPT !.tags = << [token |-> <<97>>, cats |-> <<>>, cng |-> <<>>, tng |-> <<>>, bias |-> <<>>] >>]
+\* a second tagging predictor that does NOT store candidate scores (different tag tables than MA)
+MD == [MA EXCEPT !.bias = 4,
+         !.tags = << [token |-> <<98>>, cats |-> << <<TA, TC>> >>,
+                      cng |-> << [ng |-> <<97, 98>>, tw |-> <<[rel |-> 0, w |-> <<2, 5>>]>>] >>, tng |-> <<>>, bias |-> <<3, 1>>],
+                     [token |-> <<97>>, cats |-> << <<TB, TD>>, <<TA, TB>> >>,
+                      cng |-> << [ng |-> <<97>>, tw |-> <<[rel |-> 1, w |-> <<1, -1, 4, 2>>]>>] >>, tng |-> <<>>, bias |-> <<0, 0, 1, 0>>] >>]
 Preds == << [model |-> MA, tags |-> TRUE, store |-> TRUE],
             [model |-> MB, tags |-> FALSE, store |-> FALSE],
-            [model |-> MC, tags |-> TRUE, store |-> FALSE] >>
+            [model |-> MC, tags |-> TRUE, store |-> FALSE],
+            [model |-> MD, tags |-> TRUE, store |-> FALSE] >>
 
 OpsFull == {
   [op |-> "up_raw", s |-> <<97, 98>>], [op |-> "up_raw", s |-> <<97, 12354, 98>>], [op |-> "up_raw", s |-> <<>>],
@@ -36,7 +43,7 @@ OpsFull == {
   [op |-> "up_part", s |-> <<97, 124, 98, 45, 99, 32, 100>>], [op |-> "up_part", s |-> <<97, 47, 88, 124, 98, 47, 89, 47, 90>>],
   [op |-> "up_part", s |-> <<97, 45>>],
   [op |-> "reset_tags", k |-> 0], [op |-> "reset_tags", k |-> 2],
-  [op |-> "predict", p |-> 0], [op |-> "predict", p |-> 1], [op |-> "predict", p |-> 2],
+  [op |-> "predict", p |-> 0], [op |-> "predict", p |-> 1], [op |-> "predict", p |-> 2], [op |-> "predict", p |-> 3],
   [op |-> "fill_tags"],
   [op |-> "set_bnd", v |-> <<1, 2, 0>>],
   [op |-> "filter", f |-> "R"], [op |-> "filter", f |-> "L"] }
@@ -46,7 +53,7 @@ OpsSmall == {
   [op |-> "up_tok", s |-> <<97, 47, 88, 32, 98, 47, 89>>], [op |-> "up_part", s |-> <<97, 47, 88, 124, 98, 47, 89, 47, 90>>],
   [op |-> "up_part", s |-> <<97, 45>>],
   [op |-> "reset_tags", k |-> 2],
-  [op |-> "predict", p |-> 0], [op |-> "predict", p |-> 1], [op |-> "predict", p |-> 2],
+  [op |-> "predict", p |-> 0], [op |-> "predict", p |-> 1], [op |-> "predict", p |-> 2], [op |-> "predict", p |-> 3],
   [op |-> "fill_tags"], [op |-> "set_bnd", v |-> <<1, 2, 0>>] }
 Pool == IF PoolSel = 1 THEN OpsFull ELSE OpsSmall
 
@@ -67,7 +74,7 @@ Next == /\ Len(hist) < Depth
 ShapeInv == Shape(st)
 
 \* probe sequences: update_raw(x); predict(p); [fill_tags]
-ProbeTexts == {<<97, 97, 98>>, <<98, 97>>}
+ProbeTexts == {<<97, 97, 98>>, <<98, 97>>, <<97, 98, 97, 97, 98>>}
 ProbeOps(x, p, fill) == <<[op |-> "up_raw", s |-> x], [op |-> "predict", p |-> p - 1]>> \o (IF fill THEN <<[op |-> "fill_tags"]>> ELSE <<>>)
 RunOps(s, ops) == FoldLeft(LAMBDA acc, op: Step(acc, op).st, s, ops)
 HistoryIndependence ==
@@ -77,6 +84,7 @@ HistoryIndependence ==
 
 \* probe steps appended to every emitted history (on the same object), with expectations
 Probe == ProbeOps(<<97, 97, 98>>, 1, TRUE) \o ProbeOps(<<98, 97>>, 2, FALSE) \o ProbeOps(<<97, 97, 98>>, 3, TRUE)
+         \o ProbeOps(<<97, 98, 97, 97, 98>>, 4, TRUE) \o ProbeOps(<<98, 98, 97, 97, 97>>, 1, TRUE)
 RECURSIVE ObsSeq(_, _)
 ObsSeq(s, ops) == IF ops = <<>> THEN <<>>
                   ELSE LET r == Step(s, Head(ops)) IN <<Obs(r.st, r.res)>> \o ObsSeq(r.st, Tail(ops))
